@@ -8,7 +8,7 @@ CHECKS = {
     "C19": dict(
         category="fault_enumeration",
         technique="resource-fault injection: the native stack budget (main thread / 2 MiB thread, debug / release build) is the injected limit; every grid cell runs in an isolated worker process and the exit status is the oracle",
-        text="Grid of 36 scenarios (car/cdr/vector/quote nesting x read, quote-evaluate, build, keep live across a forced collection, equal?, write, drop; closure and continuation chains; non-tail recursion; nested expressions) x depth 10^3/10^4/10^5 x two stack budgets x two build profiles = 432 cells, each executed in its own process; a cell passes if the worker completes or returns an error. Thorough runs the whole grid (exhaustive over the grid), quick a seeded sample of 160 cells plus every cell listed as a known finding. 209 cells abort on the pinned tree and are listed as known findings (removing the recursion from parser, compiler, converter, marker, equal?, printer and drop is not a small patch); any other aborting cell is a VIOLATION.",
+        text="Grid of 48 scenarios (car/cdr/alist/vector/quote nesting x read, quote-evaluate, build, build and walk through the stepping API, keep live across a forced collection, equal?, write, drop; closure and continuation chains; non-tail recursion; nested expressions) x depth 10^3/10^4/10^5 x two stack budgets x two build profiles = 576 cells, each executed in its own process; a cell passes if the worker completes or returns an error. Thorough runs the whole grid (exhaustive over the grid), quick a seeded sample of 160 cells plus every cell listed as a known finding. 232 cells abort on the pinned tree and are listed as known findings (removing the recursion from parser, compiler, converter, marker, equal?, printer and drop is not a small patch); any other aborting cell is a VIOLATION.",
         note="Outcomes near the stack limit were surveyed under three environment sizes; no cell flipped (c19_unstable_cells.json is empty). A 120 s watchdog per worker turns hangs into notes.",
         design="§5 C19",
     ),
